@@ -559,7 +559,7 @@ func stuckPair(evs []*ev) (w, r *ev) {
 func runSchedules(e *core.Env) {
 	rec := e.Rec
 	rec.Rule("schedules: one case = one netio.NewPipe() with 2-4 goroutines per end running seeded scripts of {Write(n), Read(m), WriteTo(recording writer, optionally with a byte budget), CloseWrite, CloseRead, Close, Set{,Read,Write}Deadline(past|now+d|zero)} separated by virtual sleeps or yields, m in 0..3x the write size; each direction is either 'starve' (one writing goroutine, sleepy finite readers) or 'contend' (2-4 concurrently writing goroutines and a never-sleeping drainer), with one or several reading goroutines; every history ends with Close on both ends. Classes: shape:* = generated structure that ran to completion, ev:* = behaviour actually observed in the recorded history, order:* = distinct orders of return events seen when the same script is run three times (sampled cases)")
-	n := e.N(5000, 150000)
+	n := e.N(5000, 100000)
 	var ordersMu sync.Mutex
 	orders := map[uint64]struct{}{}
 	core.Parallel(e, "schedules", n, 16, func(i int) {
